@@ -14,6 +14,7 @@ import (
 	"os"
 	"path/filepath"
 	"sort"
+	"strings"
 	"sync"
 	"sync/atomic"
 	"time"
@@ -42,7 +43,8 @@ func (quiet) Printf(format string, v ...interface{})       {}
 
 const licText = "N7b6urJ1yn0mnB5BCbNgG7tG2D2UfBpCbXYxVyWGGI0RV2wwB1XTLVDIqoWbtlM5aSTYBnKNcxXbQO8jY5Y30BZeqO5dAGGkCfY3FdTo02DWxC6SHSaBTAH2aPpGIfsC"
 
-var chans = []string{"a/", "b/", "c/"}
+// a/b/ and b/a/ collide in the XOR hash code of message.Counters; no channel is a prefix of another
+var chans = []string{"a/b/", "b/a/", "c/"}
 
 type client struct {
 	node   int
@@ -165,7 +167,11 @@ func newCluster(n int, dir string, clientsPer []int) *cluster {
 	c := &cluster{links: map[[2]int]*mesh.VerifSender{}, byLuid: map[uint64]*client{}}
 	c.key = mkKey(lic, "#/", security.AllowRead|security.AllowWrite)
 	for _, ch := range chans {
-		c.ssids = append(c.ssids, message.Ssid{lic.Contract(), hash.OfString(ch[:len(ch)-1])})
+		ssid := message.Ssid{lic.Contract()}
+		for _, lvl := range strings.Split(strings.TrimSuffix(ch, "/"), "/") {
+			ssid = append(ssid, hash.OfString(lvl))
+		}
+		c.ssids = append(c.ssids, ssid)
 	}
 	for i := 0; i < n; i++ {
 		conf := config.NewDefault().(*config.Config)
@@ -253,7 +259,14 @@ func (c *cluster) pendingAny() bool {
 
 func (c *cluster) ssidIdx(s message.Ssid) int {
 	for i, x := range c.ssids {
-		if len(x) == len(s) && x[0] == s[0] && x[1] == s[1] {
+		if len(x) != len(s) {
+			continue
+		}
+		same := true
+		for j := range x {
+			same = same && x[j] == s[j]
+		}
+		if same {
 			return i
 		}
 	}
@@ -283,7 +296,10 @@ func (c *cluster) obsTerm() string {
 			}
 			peer := be64(kb[0:8])
 			luid := be64(kb[8:16])
-			ssid := message.Ssid{be32(kb[16:20]), be32(kb[20:24])}
+			var ssid message.Ssid
+			for o := 16; o+4 <= len(kb); o += 4 {
+				ssid = append(ssid, be32(kb[o:o+4]))
+			}
 			ci := uint64(999)
 			if cl, ok := c.byLuid[luid]; ok {
 				ci = uint64(cl.idx)
@@ -569,5 +585,5 @@ func main() {
 				{"offline", 2, 1}, {"gossip", 2, 0}, {"deliver", 2, 0}})
 		sh.Add(t, h, "witness/F7-offline-tombstone", true)
 	}
-	sh.Finish("2-3 brokers with 1-2 subscribing clients each over channels a/ b/ c/; schedules of 12-36 events: client subscribe / unsubscribe toggles, single-piece deliveries on random links (so queued payloads coalesce and arrive late), and in every third case periodic full-state gossip and peer offline / online; then quiescence (all links drained, two rounds of full-state exchange) and one publish per broker and channel; observed after every event: every broker's remote trie entries, replicated subscription entries, members and per-peer counters; non-trivial: all")
+	sh.Finish("2-3 brokers with 1-2 subscribing clients each over channels a/b/ b/a/ c/ (the first two collide in the counters' hash code); schedules of 12-36 events: client subscribe / unsubscribe toggles, single-piece deliveries on random links (so queued payloads coalesce and arrive late), and in every third case periodic full-state gossip and peer offline / online; then quiescence (all links drained, two rounds of full-state exchange) and one publish per broker and channel; observed after every event: every broker's remote trie entries, replicated subscription entries, members and per-peer counters; non-trivial: all")
 }
